@@ -28,6 +28,8 @@ PROPS = {
         'explanation': 'Corollary of the step contracts: every resumable step is verified against a schedule-free spec function of its own resumable state (head_step for the head writer: remaining-head == emitted ++ remaining-head\'; post_write_body for body writes; exact-mapping contracts for the head parsers; min3 / passthrough copies for the readers), so two schedules cannot disagree; composition lemmas are proved by induction over arbitrary call lists: head (lemma_head_schedule_independent), Content-Length request body (lemma_sized_history), Content-Length response body (lemma_len_history), chunked response body (coding::lemma_chunked_history), close-reason trace (lemma_close_trace); read-only queries are proved to leave the flow unchanged. chunked request body (lemma_chunked_writes_history). NOT proved: anything about what httparse accepts (the response head is an uninterpreted function of the bytes, so schedule independence of the head holds by construction of the contract, not by a proof about httparse).',
         'assumptions': [VERUS, USIZE, WRITER_MODEL, FMT, HTTP, HTTPARSE, ITER, PRE],
         'bounded': ['whole-exchange schedules (twins of C02, C03, C04, C05, C07, C08)'],
+        # C01 is a corollary: its argument rests on the exactness obligations of these properties in the functions of its chain
+        'depends_on': ['C02', 'C03', 'C04', 'C05', 'C07', 'C08', 'C10'],
     },
     'C02': {
         'modules': M_HEAD,
@@ -46,9 +48,9 @@ PROPS = {
         'assumptions': [VERUS, USIZE, WRITER_MODEL],
     },
     'C05': {
-        'modules': ['parser', 'client::call', 'client::flow'],
-        'explanation': 'try_parse_response is an exact function of the httparse outcome; Call<RecvResponse>::try_response: Complete(n) -> exactly n consumed and a response carrying exactly the parsed version/status/fields, Partial -> need-more-data with no state change and never an error for well-formed prefixes, TooManyHeaders at 128; Flow::try_response transports it. The partial-redirect work-around is a KNOWN FINDING (KF2): its obligation is split off and listed.',
-        'assumptions': [VERUS, HTTP, HTTPARSE, LIT, PRE],
+        'modules': ['parser', 'client::call', 'client::flow', 'head_lemmas'],
+        'explanation': 'try_parse_response is an exact function of the httparse outcome; Call<RecvResponse>::try_response: Complete(n) -> exactly n consumed and a response carrying exactly the parsed version/status/fields, Partial -> need-more-data with no state change and never an error for well-formed prefixes, TooManyHeaders at 128; Flow::try_response transports it. The partial-redirect work-around is a KNOWN FINDING (KF2): its obligation is split off and listed. head_lemmas::lemma_c05_head_or_more / lemma_c05_strict_prefix / lemma_c05_not_a_partial_redirect then derive the PROPERTY STATEMENT for every well-formed head (rendered by the spec function render_head from version, status, reason, fields with optional white space) followed by any bytes and for every strict prefix, from those postconditions plus the assumed axioms on httparse.',
+        'assumptions': [VERUS, HTTP, HTTPARSE, LIT, PRE, 'axiom_wellformed_response / axiom_wellformed_response_prefix (preamble/20_httparse.rs): what httparse answers on a well-formed head and on its prefixes is ASSUMED (exercised by the bounded conformance twin), not proved'],
         'bounded': ['httparse conformance on generated heads x every prefix'],
     },
     'C06': {
@@ -74,15 +76,17 @@ PROPS = {
         'assumptions': [VERUS, HTTP, PRE, ITER],
     },
     'C10': {
-        'modules': ['ext', 'util', 'client::flow', 'lemmas'],
+        'modules': ['ext', 'util', 'body', 'client::call', 'client::flow', 'lemmas'],
+        # "the response body was close-delimited" is decided by the framing rules: the verdict rests on these C06 obligations
+        'depends_on': ['C06.reader_set_by_the_rules', 'C06.mode_table', 'C06.into_body'],
         'explanation': 'append-or-frame postcondition on every function of flow.rs: Flow::new records Http10 / ClientConnectionClose exactly, try_read_100 appends Not100Continue exactly on a non-100 decision, try_response appends ServerConnectionClose iff the returned response has connection: close, RecvResponse::proceed appends CloseDelimitedBody iff a close-delimited body follows, everything else leaves the list unchanged; must_close_connection == list non-empty and close_reason explains list[0], identically in Redirect and Cleanup; capacity 5 proved sufficient from the per-state bounds; lemma_close_trace composes them.',
         'assumptions': [VERUS, HTTP, 'HeaderIterExt::has = exists field with that name (case-insensitive) and exactly that value (N9 stub headers_has)', LIT, PRE],
         'bounded': ['headers_has against http::HeaderMap: native run'],
     },
     'C11': {
-        'modules': ['parser', 'client::call', 'client::flow'],
-        'explanation': 'Flow<Await100>::try_read_100 verified exactly against the zero-capacity httparse outcome: Partial -> nothing decided/consumed; complete bare 100 -> consumed exactly, body still due; other status or any fields -> nothing consumed, body never sent, Not100Continue recorded; Await100::proceed -> SendBody iff body still due, else a RecvResponse flow whose held call was converted (wf_recv_response); late 100 skipped exactly once in Flow<RecvResponse>::try_response; a 100 does not set the body reader.',
-        'assumptions': [VERUS, HTTP, HTTPARSE, PRE],
+        'modules': ['parser', 'client::call', 'client::flow', 'head_lemmas'],
+        'explanation': 'Flow<Await100>::try_read_100 verified exactly against the zero-capacity httparse outcome: Partial -> nothing decided/consumed; complete bare 100 -> consumed exactly, body still due; other status or any fields -> nothing consumed, body never sent, Not100Continue recorded; Await100::proceed -> SendBody iff body still due, else a RecvResponse flow whose held call was converted (wf_recv_response); late 100 skipped exactly once in Flow<RecvResponse>::try_response; a 100 does not set the body reader. head_lemmas::lemma_c11_complete_head / lemma_c11_undecided_prefix derive the property statement for every well-formed server head (bare 100 with any reason phrase; every other status; heads with fields) and every undecided prefix from that postcondition plus the assumed httparse axioms.',
+        'assumptions': [VERUS, HTTP, HTTPARSE, PRE, 'axiom_wellformed_response / axiom_wellformed_response_prefix at capacity 0 (ASSUMED; bounded conformance twin)'],
         'bounded': ['httparse conformance (shared with C05)'],
     },
     'C12': {
@@ -131,9 +135,9 @@ PROPS = {
         'assumptions': [VERUS, USIZE, WRITER_MODEL, FMT],
     },
     'C20': {
-        'modules': ['parser'],
-        'explanation': 'try_parse_response / try_parse_partial_response / try_parse_request verified to be exact functions of the (assumed, uninterpreted) httparse outcome: Complete(n) -> (n, message with exactly the parsed version, status/method and fields), Partial -> None, TooManyHeaders -> HttpParseTooManyHeaders, no panic (builder errors mapped); the partial parser reports only the completely received fields up to the first empty value and never fails before the status line is complete.',
-        'assumptions': [VERUS, HTTP, HTTPARSE, 'well-formed-head axioms on httparse (axiom_wellformed_response*) are exercised only by the bounded conformance run'],
+        'modules': ['parser', 'head_lemmas'],
+        'explanation': 'try_parse_response / try_parse_partial_response / try_parse_request verified to be exact functions of the (assumed, uninterpreted) httparse outcome: Complete(n) -> (n, message with exactly the parsed version, status/method and fields), Partial -> None, TooManyHeaders -> HttpParseTooManyHeaders, no panic (builder errors mapped); the partial parser reports only the completely received fields up to the first empty value and never fails before the status line is complete. head_lemmas::lemma_c20_response_parser / lemma_c20_response_prefix / lemma_c20_partial_parser / lemma_c20_request_parser / lemma_c20_request_prefix derive the property statement (round trip of every well-formed head followed by any bytes, "incomplete" on every strict prefix within the limit, too-many-headers exactly beyond the limit, partial parser reports only completely present fields and never fails) for all heads, limits and prefixes from those postconditions plus the assumed httparse axioms.',
+        'assumptions': [VERUS, HTTP, HTTPARSE, 'well-formed-head axioms on httparse (axiom_wellformed_response*, axiom_wellformed_request*) are ASSUMED and exercised only by the bounded conformance run'],
         'bounded': ['httparse conformance on generated heads x every prefix'],
     },
 }
